@@ -87,7 +87,7 @@ def run(job):
             prefix = [["in", f"1;255;0;0;17;{v}"], ["in", "1;1;0;0;6;t"]]
             for name, line in state_lines(v).items():
                 for ext in ("json", "pickle"):
-                    for pat in ("only", "after-tick", "after-two-ticks", "tick-after"):
+                    for pat in ("only", "after-tick", "after-two-ticks", "tick-after", "during-tick"):
                         cfg = {"version": v, "flavour": fl, "ext": ext, "callback": pat != "after-tick" or ext == "json"}
                         if pat == "only":
                             steps = prefix + [["in", line], ["stop"]]
@@ -95,9 +95,13 @@ def run(job):
                             steps = prefix + [["tick"], ["in", line], ["stop"]]
                         elif pat == "after-two-ticks":
                             steps = prefix + [["tick"], ["tick"], ["in", line], ["stop"]]
+                        elif pat == "during-tick":
+                            # the change arrives, and stop() is called, while a periodic save is in flight in the timer thread
+                            steps = prefix + [["tick"], ["in", "1;255;3;0;0;55"], ["stop-during-tick", line]]
                         else:
                             steps = prefix + [["tick"], ["in", line], ["tick"], ["stop"]]
                         out = run_one(cfg, steps, tmp)
+                        res.count("stops_during_a_tick", out.get("stops_during_a_tick", 0))
                         res.evals += 1
                         res.count("last_change_cases")
                         judge(res, cfg, steps, out, name)
@@ -121,12 +125,15 @@ def run(job):
                 # the device sends one more state-changing line while stop() is running
                 steps.append(["stop", rng.choice([f"9;255;0;0;17;{cfg['version']}", "1;255;3;0;0;33", "255;255;3;0;3;", "1;1;1;0;0;77"])])
                 res.count("stops_with_a_late_line")
+            elif h % 4 == 3:
+                steps.append(["stop-during-tick", rng.choice([f"9;255;0;0;17;{cfg['version']}", "1;255;3;0;0;34", "1;1;1;0;0;78", None])])
             else:
                 steps.append(["stop"])
             out = run_one(cfg, steps, tmp)
             res.evals += 1
             res.count("histories")
             res.count("late_lines_delivered", out.get("late_lines_delivered", 0))
+            res.count("stops_during_a_tick", out.get("stops_during_a_tick", 0))
             res.count("ticks", out["ticks"])
             judge(res, cfg, steps, out, "random")
             ticks = tuple(i for i, s in enumerate(steps) if s[0] == "tick")[-3:]
@@ -156,12 +163,15 @@ def finish(agg, tier):
                 "sketch name/version, heartbeat, id request, re-presentation) as the last change before stop(), with 0/1/2 save "
                 "ticks before it or one after it, x format x flavour x version; (b) random lock-step histories with ticks and "
                 "restarts at arbitrary positions ended by the real stop(); in a quarter of them the device sends one more state-changing "
-                "line while stop() runs (right after a save completes, delivered only if the transport is still open). Oracle: strict (type-tagged) projection held before "
+                "line while stop() runs (right after a save completes, delivered only if the transport is still open), and in another quarter (threaded flavour) "
+                "stop() is called while a periodic save is in flight in the timer thread (it has serialised the state and waits in fsync; "
+                "one more state-changing line arrives in between; the timer thread finishes after stop() returned). Oracle: strict (type-tagged) projection held before "
                 "stop() == projection of a fresh gateway after start_persistence() on the same file. distinct = (last "
                 "state-changing kind, tick pattern, format, flavour, version/history).",
         "floors": [("stops_judged", c.get("stops_judged", 0), 2000), ("last_change_cases", c.get("last_change_cases", 0), 600),
-                   ("ticks", c.get("ticks", 0), 1500), ("stops_with_a_late_line", c.get("stops_with_a_late_line", 0), 150)],
+                   ("ticks", c.get("ticks", 0), 1500), ("stops_with_a_late_line", c.get("stops_with_a_late_line", 0), 150),
+                   ("stops_during_a_tick", c.get("stops_during_a_tick", 0), 100)],
         "assumptions": ["save ticks = the real schedule_save body (threaded, captured Timer) / the real save loop on a virtual-time "
                         "asyncio loop with run_in_executor inline"],
-        "show": ["histories", "stops_judged", "last_change_cases", "ticks"],
+        "show": ["histories", "stops_judged", "last_change_cases", "ticks", "stops_during_a_tick"],
     }
